@@ -24,6 +24,11 @@ CLAIMED = {
         '"decodable" = the data is the serialization of an envelope; the rkyv/rmp round trip itself is trusted (C27)',
         'verify / prepare / parse_data / Instruction::execute are external: the claim is about what execute_air_impl and the farewell functions do with their results',
     ]),
+    'C03': dict(assumptions=[GAP,
+        'only the signature clause of C03 in its per-call form (R): every handler call that hands a CID-bearing state to the trace handler registers exactly that CID once, under the peer whose tetraplet the aggregate is stored with, on every path that still pushes a state; PeerCidTracker::register keeps it iff peer == current peer; sign_produced_cids / sign_result put ed_sign(key, salted(sorted(cids), particle id)) under keypair.public(). The lift to "tracker cids == multiset of the current peer\'s CIDs in the final trace, hence the receiver\'s check succeeds" is an argument, not a proof: it needs that trace merges add or drop no CID-bearing state outside these handlers',
+        'decoding, the version gate, CID-store verification and tracked => resolvable are the obligations of units version, cid_verify, cid_store, cid_state (tagged C21/C25/C14/C09), not re-proved under C03',
+        'Ed25519, borsh (SaltedData::serialize) and sort_unstable are uninterpreted; the same serialisation is used by signer and verifier; that the keypair is the current peer\'s key is the host\'s obligation; CID collision-freeness; the canon epilog closure (dyn Fn) is assumed to push Executed(cid) on Ok, to fail only uncatchably and never to register',
+    ]),
     'C05': dict(assumptions=[GAP, '"at most once over a history" = decision table rows (i)-(v) + C06 freshness + C09, composed informally']),
     'C06': dict(assumptions=[GAP, 'u32 exhaustion of the request id counter is a precondition (lcid < u32::MAX), not handled by the code',
                              'prepare()/ExecutionCtx::new collections are external; the id plumbing prev_data.lcid -> ctx -> envelope is what is proved']),
@@ -38,6 +43,13 @@ CLAIMED = {
                              'ValuesMatrix::slice_iter (iterator chain) is a stub with the spec non_empty(view.skip(cursor)); the bounded native jobs C12.compactify / C13.cursor tie it to the real code']),
     'C14': dict(assumptions=[GAP, 'Ed25519, borsh and CidInfo::verify internals are trusted; the attack catalogue over histories is not covered']),
     'C15': dict(assumptions=[GAP, 'to_count_map (HashMap entry API) is outside Verus: assumed to return the multiset of its argument, checked by the bounded native job C15.merge, which also covers DataVerifier::merge (swap logic, Entry API) that Verus cannot take']),
+    'C17': dict(assumptions=[GAP,
+        'the tetraplets put into CallRequestParams by ResolvedCall::{collect_args, resolve_args, prepare_request_params} are, position by position, those of the arguments (arg_ok for every ImmutableValue kind: literal and built-ins => (init peer, "", "", ""); scalar => stored tetraplets; scalar/iterator with lens => stored ++ lens text; call results fresh and replayed => the call\'s resolved triplet with an empty lens, replayed ones only after verify_call)',
+        'reading for canon streams: "it" is the ELEMENT the producer produced, so `#c.$.[i]` keeps the element tetraplet and `#c.$.[i].path` must append the path after the index (as the canon-map sibling does); upstream pins the first half (ap.rs) and, against the statement, the lens-less second half (fold_stream_map): recorded known finding F16',
+        'a `.length` result carries ("", "", "", ".length") or (current peer, "", "", ".length"), pinned upstream (functor_dont_influence_tetraplet): accepted reading, neither names a producer',
+        'SecurityTetraplet::{new, literal_tetraplet, add_lens} live in the registry crate marine-call-parameters (outside /repo): shim checked by the bounded native job C17.tetraplet_shim; lens texts (Display, format!) are uninterpreted; dyn JValuable / Box<dyn Iterable> dispatch goes through hand-written traits; MsgPack serialisation of arguments and tetraplets is trusted',
+        'not covered: lens on a canon MAP (select_by_lambda_from_canon_map and below: uninterpreted), how canon streams/maps get their element tetraplets (canon instruction, canon replay), where an error descriptor\'s tetraplet is set, `ap` (observation O2 in DESIGN.md section 5)',
+    ]),
     'C18': dict(assumptions=[GAP, 'behaviour inside par/fold/new is not covered']),
     'C19': dict(assumptions=[GAP, 'quiescence of finished histories is not covered; dedup is a bounded native check']),
     'C21': dict(assumptions=['Ord for semver::Version is axiomatised as a strict total order; conformance of that axiom is a native check of a trusted dependency']),
@@ -46,21 +58,29 @@ CLAIMED = {
     'C24': dict(assumptions=['JSON arrays/objects are opaque payloads with uninterpreted views (Rc<[JValue]>::get, BTreeMap::get external); canon-map key conversion (StreamMapKey::from_value*, try_scalar_ref_as_stream_map_key) is covered, canon stream first-index selection (iterator nth) is not']),
     'C25': dict(assumptions=['Verus: second sentence (verification accepts exactly matching pairs); cid parsing, Multihash and the digest functions are external with uninterpreted results',
                              'first sentence (the id does not depend on how the value was built) only by the bounded native job C25.canonical with real hashes on boundary JSON values']),
+    'C26': dict(assumptions=[
+        'structural layer only: the accessors, eq_i64/eq_u64/eq_bool/eq_str, index_into, the scalar and serde_json::Value conversions, `Serialize for JValue` (emits exactly the serde data-model rendering of the value: null->unit, bool, number by its own serialize, str, seq in order, map in iteration order) and every ValueVisitor::visit_* / KeyClassifier callback (builds the JSON value the datum denotes; later duplicate keys win; non-finite f64 reads as null), plus the round-trip lemma ser_then_de_is_identity over those contracts',
+        'serde_json::Number is opaque (kind PosInt / NegInt / finite Float, six axioms for From<u64>, From<i64>, from_f64 and Number::serialize), f64 values are opaque: eq_f32 / eq_f64 / From<f32> have only weak contracts; crate::Map is a shim with its entry list in iteration order; the serde traits are hand-written "this call emits/consumes this datum" contracts, callbacks on nested values are bounded by spec-only traits carrying the contract being proved (an induction on value depth Verus does not check); the serde blanket impl for Rc<[T]> is assumed to be a seq in order; 5 std assume_specifications, 15 local rewrites, the two iterator chains of From<&serde_json::Value> are stubs',
+        'NOT proved: the text layer (serde_json printer/parser, ryu/itoa, float text, escaping), Display, Debug, pointer, the macro-generated From<int> / PartialEq<$ty> impls, collection constructors, derived Clone/PartialEq: these are exercised only by the bounded native job C26.roundtrip (1362 / thorough 6427 boundary values through the real serde_json)',
+        'accepted reading: `JValue == x_f32` compares exactly (as_f64() == x as f64), as the crate\'s own NB comment says; serde_json rounds to f32 first',
+    ]),
     'C27': dict(assumptions=['multiformat layer only; unsigned_varint encode/decode external with a round-trip spec and a canonical-length spec (F15 repaired: over-long / overflowing tags are rejected); rkyv + check_bytes and rmp_serde are trusted']),
+    'C28': dict(assumptions=[
+        'one fmt assumption (shims of unit beautifier, literals cut mechanically by extractor rule R5): format_args!(LIT, args) renders LIT with the k-th placeholder replaced by the Display text of the argument it names; `{:w$}` of "" is w spaces; writeln adds a newline; write_fmt appends exactly that text or fails having only extended the output. Also trusted: itertools format(sep) = join, derived Clone, thiserror From<io::Error>, enable_try_hopon (mut self) as a stub',
+        'precondition indent + depth(script) * indent_step <= usize::MAX (cannot be broken by input with the default step 4; a caller-chosen --indent-step can)',
+        'proved: beautify_ast appends exactly render(ast, 0, step, hopon) -- render written from the statement: one line per instruction in script order at indent = nesting depth * step, sequences flattened, compound instructions introduced by their keyword/header, par/xor/last separators at the parent indent -- and on an I/O error only extends the output; the header of every instruction is its Display text, proved for the 16 instruction Display impls of traits.rs up to the Display text of the operands (values/traits.rs, instruction_arguments/traits.rs: uninterpreted); try_hopon recognises exactly (new $s (new #c (canon peer $s #c)))',
+        'not covered by proof: the parser link (Beautifier::beautify, crate::beautify, beautify_to_string) and the operand texts: only the bounded native job C28.render (real parser + Beautifier + std::fmt on 2801 / thorough 36689 generated scripts, steps {0,1,4}, hop-on on/off, re-parse of every simple line)',
+    ]),
 }
 for _k, _v in CLAIMED.items():
     _v.setdefault('level', 'proof')
 
 # properties not claimed: reason (DESIGN.md section 3 / 6)
 NOT_APPLICABLE = {
-    'C03': 'relation over a whole output (trace x 5 CID stores x signature tracker x Ed25519); its only contract-sized part (handler appends a CID-bearing state => records the CID) fails on an input outside the property quantifier (F8), so a check would alarm on code where the property holds',
     'C04': 'protocol invariant over all interleavings of multi-peer histories; no single call has a pre/postcondition stating it',
     'C16': 'needs a reference semantics of AIR programs and a simulation relation (translation validation: another family)',
-    'C17': 'provenance flows through dyn JValuable, Rc sharing and external String lens formatting that Verus cannot see through and Kani cannot bound',
     'C20': 'two-run (2-safety) statement whose only enemy is RandomState-dependent HashMap iteration order; Verus abstracts the map, Kani must fix the hasher keys',
     'C23': '9.6 kLOC generated table-driven LALR(1) driver over &str plus a HashMap<&str,Span> validator driven by generated actions: outside Verus, beyond CBMC bounds',
-    'C26': 'serde_json printer/parser, ryu/itoa, f64 text and UTF-8 escaping: floating point and string reasoning where this family is silent',
-    'C28': 'observable behaviour is bytes written through std::fmt macros; stating anything needs a model of the beautifier, not the beautifier',
 }
 # claimed in DESIGN.md but whose units are not registered yet (kept current as units land)
 PENDING = {}
